@@ -479,6 +479,24 @@ func Explore(sc *core.Scenario, ex *Extra, tier string, st *core.Stats) ([]Hit, 
 			hit("C12.overwrite-true-ignored", fmt.Sprintf("loading with overwrite=true did not replace the existing entry (err=%v)", err), Extra{Op: "overwrite"})
 		}
 		count("overwrite", 2)
+		// removing a rule from a name/version the library does not hold creates nothing
+		absent := ast.NewKnowledgeLibrary()
+		absent.RemoveRuleEntry("Nobody", esim.KBName, esim.KBVersion)
+		if len(absent.Library) != 0 {
+			hit("C12.library-changed-by-remove", "RemoveRuleEntry on a name/version the library does not hold left an entry behind", Extra{Op: "overwrite"})
+		}
+		if _, err := load(image, nil, false, absent); err != nil {
+			hit("C12.overwrite-false-fresh-failed", fmt.Sprintf("loading with overwrite=false into a library that never held the name/version failed: %v", err), Extra{Op: "overwrite"})
+		}
+		// two stores back to back in ONE stream, loaded one after the other from ONE reader
+		two := ast.NewKnowledgeLibrary()
+		rd := &Reader{Image: append(append([]byte{}, image...), image...)}
+		if _, err := two.LoadKnowledgeBaseFromReader(rd, true); err != nil {
+			hit("C12.clean-load-failed", fmt.Sprintf("first of two stores in one stream does not load: %v", err), Extra{Op: "overwrite"})
+		} else if _, err := two.LoadKnowledgeBaseFromReader(rd, true); err != nil {
+			hit("C12.second-store-in-stream-lost", fmt.Sprintf("the second of two stores written back to back into one stream does not load from the same reader (the first load consumed more than its own bytes?): %v", err), Extra{Op: "overwrite"})
+		}
+		count("overwrite", 4)
 		// an existing entry WITHOUT rules (created by GetKnowledgeBase for someone about to build into it) is an
 		// existing entry all the same
 		empty := ast.NewKnowledgeLibrary()
